@@ -33,6 +33,7 @@ type HHook struct {
 
 type Case2 struct {
 	Kind     string  `json:"kind"` // hmm
+	Exact    bool    `json:"exact"` // decided with the rounded rationals NumQr (small cases) instead of binary64
 	M        int     `json:"m"`
 	C        int     `json:"c"`
 	J        int     `json:"j"`
@@ -176,7 +177,7 @@ func (c *Case2) coq() string {
 	for i, q := range c.Seqs {
 		sq[i] = intList(q)
 	}
-	return fmt.Sprintf("C2Hmm %d %d %d %s %s %s %s %s", c.M, c.C, c.J, intList(c.Smap), List(sq), F(c.Eps.f()), ms, List(hs))
+	return fmt.Sprintf("C2Hmm %s %d %d %d %s %s %s %s %s", B(c.Exact), c.M, c.C, c.J, intList(c.Smap), List(sq), F(c.Eps.f()), ms, List(hs))
 }
 
 const header2 = `From Coq Require Import ZArith QArith Floats List Bool.
@@ -248,11 +249,12 @@ func dyadicSimplex8(r *Rng, k int, zeros bool) []float64 {
 	return f
 }
 
-func genHMM(r *Rng) *Case2 {
-	c := &Case2{Kind: "hmm"}
+func genHMM(r *Rng, small bool) *Case2 {
+	c := &Case2{Kind: "hmm", Exact: small}
 	c.M = r.Pick([]int{1, 6, 3}) + 1
-	maxLen, maxSeq := 5, 3
-	if c.M == 3 {
+	maxLen, maxSeq := 6, 3
+	if small {
+		c.M = r.Range(1, 2)
 		maxLen, maxSeq = 3, 2
 	}
 	c.J = r.Range(2, 3)
@@ -286,11 +288,14 @@ func genHMM(r *Rng) *Case2 {
 		c.Th0 = append(c.Th0, fss(dyadicSimplex8(r, c.J, zeros && r.Intn(2) == 0)))
 	}
 	c.MaxSteps = []int{1, 2, 2, 3, 4, -1}[r.Intn(6)]
+	if small {
+		c.MaxSteps = r.Range(1, 2)
+	}
 	c.Eps = fs([]float64{0, 1e-6, 1e-2, -1}[r.Intn(4)])
 	if c.MaxSteps == -1 && c.Eps.f() <= 0 {
 		c.Eps = fs(1e-2)
 	}
-	c.Tag = fmt.Sprintf("hmm|m%d|share=%v|zeros=%v|nseq%d|ms%d", c.M, share, zeros, ns, c.MaxSteps)
+	c.Tag = fmt.Sprintf("hmm|m%d|share=%v|zeros=%v|nseq%d|ms%d|exactQ=%v", c.M, share, zeros, ns, c.MaxSteps, small)
 	return c
 }
 
@@ -324,7 +329,7 @@ func round2(o Opts) {
 		}
 	}
 	for i := 0; i < o.N; i++ {
-		cs = append(cs, genHMM(r))
+		cs = append(cs, genHMM(r, i < o.N/5))
 	}
 	hist := map[string]int{}
 	nontriv := map[string]bool{}
@@ -354,12 +359,34 @@ func round2(o Opts) {
 			nontriv[string(b)] = true
 		}
 	}
-	per := 12
 	if err := os.MkdirAll(o.Out, 0755); err != nil {
 		Die("%v", err)
 	}
+	// exact (NumQr) cases first, two per shard (about 1 ms per rational operation inside Coq); then the
+	// binary64 cases, 15 per shard
+	var ordered []*Case2
+	for _, c := range kept {
+		if c.Exact {
+			ordered = append(ordered, c)
+		}
+	}
+	nexact := len(ordered)
+	for _, c := range kept {
+		if !c.Exact {
+			ordered = append(ordered, c)
+		}
+	}
+	kept = ordered
 	nsh, ntab := 0, 0
-	for s := 0; s < len(kept); s += per {
+	sizes := []int{}
+	for s := 0; s < len(kept); {
+		per := 15
+		if s < nexact {
+			per = 2
+			if s+per > nexact {
+				per = nexact - s
+			}
+		}
 		e := s + per
 		if e > len(kept) {
 			e = len(kept)
@@ -368,8 +395,10 @@ func round2(o Opts) {
 		if err != nil {
 			Die("%v", err)
 		}
+		sizes = append(sizes, e-s)
 		ntab += n
 		nsh++
+		s = e
 	}
 	f, _ := os.Create(filepath.Join(o.Out, "r2.jsonl"))
 	enc := json.NewEncoder(f)
@@ -384,9 +413,136 @@ func round2(o Opts) {
 	meta := map[string]interface{}{
 		"name": "round2", "evaluations": len(kept), "distinct_nontrivial": len(nontriv),
 		"rule":    "HMM case: >= 2 states and >= 2 recorded Baum-Welch iterations",
-		"samples": samples, "histogram": hist, "shards": nsh, "per_shard": per,
+		"samples": samples, "histogram": hist, "shards": nsh, "shard_sizes": sizes,
 		"extra": map[string]interface{}{"exp_table_entries_certified": ntab},
 	}
 	b, _ := json.MarshalIndent(meta, "", " ")
 	os.WriteFile(filepath.Join(o.Out, "r2.meta.json"), b, 0644)
+}
+
+// ---------------------------------------------------------------- property oracle (independent of the Coq model)
+
+// log-likelihood of all sequences under the parameters of a hook record, by explicit enumeration of the paths
+func bruteLoglik(c *Case2, h HHook) float64 {
+	pi, tr := ffs(h.Pi), ffs(h.Tr)
+	total := 0.0
+	for _, q := range c.Seqs {
+		n := len(q)
+		path := make([]int, n)
+		sum := math.Inf(-1)
+		for {
+			lp := pi[path[0]] + h.Th[c.Smap[path[0]]][q[0]].f()
+			for k := 1; k < n; k++ {
+				lp += tr[path[k-1]*c.M+path[k]] + h.Th[c.Smap[path[k]]][q[k]].f()
+			}
+			if !math.IsNaN(lp) {
+				sum = logAdd(sum, lp)
+			}
+			i := 0
+			for ; i < n; i++ {
+				path[i]++
+				if path[i] < c.M {
+					break
+				}
+				path[i] = 0
+			}
+			if i == n {
+				break
+			}
+		}
+		total += sum
+	}
+	return total
+}
+
+// Baum-Welch ascent and the bookkeeping of the hook likelihoods, on the implementation's own trace
+func oracleHMM(c *Case2) string {
+	if c.Err || len(c.Trace) < 2 {
+		return ""
+	}
+	ll := make([]float64, len(c.Trace))
+	for t, h := range c.Trace {
+		ll[t] = bruteLoglik(c, h)
+	}
+	for t := 1; t < len(c.Trace); t++ {
+		if ll[t] < ll[t-1]-1e-9*(math.Abs(ll[t-1])+1) {
+			return fmt.Sprintf("Baum-Welch step %d decreased the log-likelihood (enumerated over all paths): %.12g -> %.12g", t, ll[t-1], ll[t])
+		}
+		if !relClose(c.Trace[t].Lik.f(), ll[t-1], 1e-9) {
+			return fmt.Sprintf("hook %d reports likelihood %.12g, the model of iteration %d has %.12g", t, c.Trace[t].Lik.f(), t-1, ll[t-1])
+		}
+	}
+	return ""
+}
+
+func shrinkHMM(c *Case2) *Case2 {
+	best := c
+	for {
+		improved := false
+		for s := range best.Seqs {
+			for _, drop := range []int{0, 1} { // drop a sequence / its last observation
+				d := *best
+				d.Trace = nil
+				d.Seqs = nil
+				for s2, q := range best.Seqs {
+					if s2 == s {
+						if drop == 0 || len(q) <= 1 {
+							continue
+						}
+						q = q[:len(q)-1]
+					}
+					d.Seqs = append(d.Seqs, append([]int{}, q...))
+				}
+				if len(d.Seqs) == 0 {
+					continue
+				}
+				executeHMM(&d)
+				if oracleHMM(&d) != "" {
+					best, improved = &d, true
+					break
+				}
+			}
+			if improved {
+				break
+			}
+		}
+		if !improved {
+			return best
+		}
+	}
+}
+
+// hunt over Baum-Welch cases: the ones handed over by the correspondence stage, then random ones
+func huntHMM(o Opts, handed []*Case2, res map[string]interface{}) {
+	try := func(c *Case2) bool {
+		executeHMM(c)
+		if m := oracleHMM(c); m != "" {
+			s := shrinkHMM(c)
+			res["found"], res["failure"], res["case"] = true, oracleHMM(s), s
+			return true
+		}
+		return false
+	}
+	for _, c := range handed {
+		if try(c) {
+			return
+		}
+	}
+	r := NewRng(o.Seed + 424242)
+	for i := 0; i < o.N/3; i++ {
+		if try(genHMM(r, false)) {
+			return
+		}
+	}
+}
+
+func replay2(o Opts, c *Case2) {
+	executeHMM(c)
+	os.MkdirAll(o.Out, 0755)
+	if _, err := writeShard2(o.Out, "replay", 0, []*Case2{c}); err != nil {
+		Die("%v", err)
+	}
+	msg := oracleHMM(c)
+	hb, _ := json.MarshalIndent(map[string]interface{}{"found": msg != "", "failure": msg, "case": c}, "", " ")
+	os.WriteFile(filepath.Join(o.Out, "hunt.json"), hb, 0644)
 }
